@@ -125,12 +125,6 @@ func Interpret(entries []tarx.Entry) Result {
 			cur.Perm = e.Mode & 0777
 			cur.MtimeNs = MtimeNs(e)
 		case "symlink":
-			if strings.HasPrefix(e.Name, "/") {
-				// Unpack reads the link's own position from the raw name; an
-				// absolute name makes every relative target look external.
-				// Refusing is allowed (the property speaks of successful runs).
-				may("link entry with an absolute name")
-			}
 			if cur != nil {
 				may("link entry over an existing path")
 				return r
